@@ -88,6 +88,7 @@ pub fn check(q: &PolyQ, part: &mut Part) -> Option<Viol> {
   let mk = |api: &str, kind: &str, expected: String, actual: String| Some(Viol { api: api.into(), kind: kind.into(), case: q.to_json(), expected, actual });
   let (d, exact) = (q.depth, q.exact);
   let verts = q.vertices.clone();
+  journal(api, || q.to_json());
   let out = match guarded(move || Bm::from_impl(&nested::polygon_coverage(d, &verts, exact))) {
     Ok(o) => o,
     Err(m) => return mk(api, "panic", "a coverage".into(), format!("panic: {}", m)),
